@@ -1,13 +1,27 @@
 /- C08 — Arrays behave identically whatever their internal representation.
-   Property theorems only (helper lemmas live in Proofs/Arr.lean). -/
+   Property theorems only (helper lemmas live in Proofs/Arr.lean, Proofs/ArrKernels.lean). -/
 import JrsVerif.Proofs.Arr
+import JrsVerif.Proofs.ArrKernels
 
 namespace JrsVerif.Arr
+open JrsVerif.Generated.ArrKernels
 
-/-- every array expression builds a view that is observationally its plain list -/
+/-- every array expression builds a view that is observationally its plain list — through `len`
+    and through each of the three accessors (`get`, `get_lazy`, and `get_cheap` when cheap);
+    `cat` is `ArrValue::extended` with its three branches (link / cheap copy / lazy copy) -/
 theorem build_good (t : T) (h : t.WF) : Good (build t) (denote t) := by
   induction t with
-  | lit xs => exact good_vec xs
+  | lit xs k =>
+    cases k with
+    | eager => exact good_vec xs true
+    | lazy => exact good_vec xs false
+    | expr =>
+      simp only [build, denote]
+      split
+      · rename_i he
+        have : xs = [] := by simpa using he
+        subst this; exact good_empty
+      · exact good_vec xs false
   | range a b => exact good_range a b ⟨h.1, h.2.1⟩ ⟨h.2.2.1, h.2.2.2⟩
   | slice t s e st ih => exact good_slice (ih h.1) s e st h.2
   | cat a b iha ihb => exact good_ext (iha h.1) (ihb h.2)
@@ -15,6 +29,12 @@ theorem build_good (t : T) (h : t.WF) : Good (build t) (denote t) := by
   | rep t n ih => exact good_rep (ih h) n
   | map t wi ih => exact good_map (ih h) wi
   | filter t ih => exact good_filter (ih h)
+  | chars cps => exact good_vec cps true
+  | bytes bs => exact good_vec bs true
+  | objvals xs => exact good_vec xs false
+  | mkarr n triv =>
+    obtain ⟨v, hv, hg⟩ := good_makeArray n h triv
+    simp only [build, hv, denote]; exact hg
 
 /-- C08.1  length of any composed view = length of the plainly constructed array -/
 theorem len_eq (t : T) (h : t.WF) : len (build t) = (denote t).length := (build_good t h).1
@@ -22,32 +42,303 @@ theorem len_eq (t : T) (h : t.WF) : len (build t) = (denote t).length := (build_
 /-- C08.2  `get` at every index (also at/after the end, also on views of larger arrays) is the
     element of the plain list, or out-of-bounds; in particular never a panic. -/
 theorem get_eq (t : T) (h : t.WF) (i : Nat) : get (build t) i = specGet (denote t) i :=
-  (build_good t h).2 i
+  (build_good t h).2.1 i
+
+/-- C08.2 for `get_lazy(i)` (forced): the accessor used by `iter_lazy`, by the lazy copy of
+    `extended`, by `MappedArray::get`, by `std.foldl`/`std.sort`/… -/
+theorem getLazy_eq (t : T) (h : t.WF) (i : Nat) : getLazy (build t) i = specGet (denote t) i :=
+  (build_good t h).2.2.1 i
+
+/-- C08.2 for `get_cheap(i)` on a representation that reports `is_cheap()`: the accessor used by
+    `iter_cheap` (cheap copy of `extended`) -/
+theorem getCheap_eq (t : T) (h : t.WF) (hc : isCheap (build t) = true) (i : Nat) :
+    getCheap (build t) i = specGet (denote t) i :=
+  (build_good t h).2.2.2 hc i
+
+/-- the three accessors cannot be told apart -/
+theorem accessors_agree (t : T) (h : t.WF) (i : Nat) :
+    getLazy (build t) i = get (build t) i ∧
+      (isCheap (build t) = true → getCheap (build t) i = get (build t) i) := by
+  refine ⟨?_, fun hc => ?_⟩
+  · rw [getLazy_eq t h, get_eq t h]
+  · rw [getCheap_eq t h hc, get_eq t h]
 
 /-- C08 / C04: no index makes any representation panic -/
 theorem get_total (t : T) (h : t.WF) (i : Nat) : get (build t) i ≠ .panic := by
   rw [get_eq t h]; unfold specGet; split <;> simp
 
+theorem getLazy_total (t : T) (h : t.WF) (i : Nat) : getLazy (build t) i ≠ .panic := by
+  rw [getLazy_eq t h]; unfold specGet; split <;> simp
+
 /-- C08.5 representation irrelevance: two expressions with the same contents cannot be told
-    apart by `len`/`get` (all observers — equality, ordering, iteration, manifestation — are
-    defined through these two). -/
+    apart by `len`/`get`/`get_lazy` (all observers — equality, ordering, iteration,
+    manifestation — are defined through these). -/
 theorem repr_irrelevant (t u : T) (ht : t.WF) (hu : u.WF) (h : denote t = denote u) :
     len (build t) = len (build u) ∧ ∀ i, get (build t) i = get (build u) i := by
   refine ⟨?_, fun i => ?_⟩
   · rw [len_eq t ht, len_eq u hu, h]
   · rw [get_eq t ht, get_eq u hu, h]
 
+theorem repr_irrelevant_lazy (t u : T) (ht : t.WF) (hu : u.WF) (h : denote t = denote u) (i : Nat) :
+    getLazy (build t) i = getLazy (build u) i := by
+  rw [getLazy_eq t ht, getLazy_eq u hu, h]
+
 /-- iteration (`iter`, used by `==`, `<`, manifestation, std functions) sees exactly the list -/
 theorem materialize_eq (t : T) (h : t.WF) : materialize (build t) = some (denote t) :=
   materialize_good (build_good t h)
 
+/-- `iter_lazy` sees exactly the list -/
+theorem materializeLazy_eq (t : T) (h : t.WF) : materializeLazy (build t) = some (denote t) :=
+  materializeLazy_good (build_good t h)
+
+/-- `iter_cheap` is `None` or exactly the list -/
+theorem iterCheap_eq (t : T) (h : t.WF) :
+    iterCheap (build t) = if isCheap (build t) then some (some (denote t)) else none :=
+  iterCheap_good (build_good t h)
+
+/-! ### `arr[n]` : the `Expr::Index` arm -/
+
+/-- C08.4  `arr[n]` for the number `n = m / 2^e` as coded equals the rule: fractional part above
+    `f64::EPSILON` → FractionalIndex; below zero → bounds error; otherwise element
+    `⌊n⌋` of the plain list or a bounds error at/after the length; never a panic. -/
+theorem index_expr_spec (t : T) (h : t.WF) (hl : (denote t).length < 2 ^ 64) (m : Int) (e : Nat) :
+    indexExpr (build t) m e = specIndex (denote t) m e := by
+  have hp : (0 : Int) < 2 ^ e := Int.pow_pos (by omega)
+  unfold indexExpr specIndex
+  by_cases hm : m < 0
+  · have hf : ¬ (fractNum m e * (2 ^ 52 : Int) > 2 ^ e) := by
+      have h1 : fractNum m e ≤ 0 := by
+        unfold fractNum
+        have : ¬ m ≥ 0 := by omega
+        simp only [this, ↓reduceIte]
+        have := Int.emod_nonneg (-m) (Int.ne_of_gt hp)
+        omega
+      have h2 : fractNum m e * (2 ^ 52 : Int) ≤ 0 :=
+        Int.mul_nonpos_of_nonpos_of_nonneg h1 (by omega)
+      omega
+    have hs : ¬ (0 < m ∧ m % (2 ^ e : Int) * (2 ^ 52 : Int) > 2 ^ e) := by omega
+    simp only [hf, hs, hm, ↓reduceIte]
+  · have hfn : fractNum m e = m % (2 ^ e : Int) := by
+      unfold fractNum
+      have : m ≥ 0 := by omega
+      simp only [this, ↓reduceIte]
+    rw [hfn]
+    by_cases hfr : m % (2 ^ e : Int) * (2 ^ 52 : Int) > 2 ^ e
+    · have hpos : 0 < m := by
+        by_cases h0 : 0 < m
+        · exact h0
+        · have : m = 0 := by omega
+          subst this; simp at hfr; omega
+      have hs : 0 < m ∧ m % (2 ^ e : Int) * (2 ^ 52 : Int) > 2 ^ e := ⟨hpos, hfr⟩
+      simp only [hfr, hs, and_self, ↓reduceIte]
+    · have hs : ¬ (0 < m ∧ m % (2 ^ e : Int) * (2 ^ 52 : Int) > 2 ^ e) := fun hh => hfr hh.2
+      simp only [hfr, hm, and_false, ↓reduceIte]
+      rw [get_eq t h]
+      unfold asUsize specGet
+      generalize (m / (2 ^ e : Int)).toNat = k
+      by_cases hk : k ≤ 2 ^ 64 - 1
+      · rw [Nat.min_eq_left hk]; cases (denote t)[k]? <;> rfl
+      · rw [Nat.min_eq_right (by omega)]
+        have h1 : (denote t)[2 ^ 64 - 1]? = none := List.getElem?_eq_none (by omega)
+        have h2 : (denote t)[k]? = none := List.getElem?_eq_none (by omega)
+        rw [h1, h2]
+
+/-- whole-number indices: below zero or at/after the length is a bounds error, otherwise the
+    element of the plain list -/
+theorem index_int (t : T) (h : t.WF) (hl : (denote t).length < 2 ^ 64) (n : Int) :
+    indexExpr (build t) n 0 =
+      if n < 0 then .bounds
+      else match (denote t)[n.toNat]? with
+        | some x => .val x
+        | none => .bounds := by
+  rw [index_expr_spec t h hl]
+  unfold specIndex
+  have hz : n % (2 ^ 0 : Int) = 0 := by simp [Int.emod_one]
+  have hd : n / (2 ^ 0 : Int) = n := by simp
+  rw [hz, hd]
+  have : ¬ (0 < n ∧ (0 : Int) * 2 ^ 52 > 2 ^ 0) := by omega
+  rw [if_neg this]
+  by_cases hn : n < 0
+  · simp only [hn, ↓reduceIte]
+  · simp only [hn, ↓reduceIte]; cases (denote t)[n.toNat]? <;> rfl
+
+/-! ### `RangeArray::len` (wrapping arithmetic) and its callers -/
+
+/-- C08 (3)  with `i32` ends the wrapping length is the true length of `start..=end` exactly for
+    `start ≤ end + 1` -/
+theorem rangeLen_exact (s e : Int) (hs : I32 s) (he : I32 e) :
+    len (.range s e) = (rangeSpec s e).length ↔ s ≤ e + 1 :=
+  rangeLen_exact_iff s e hs he
+
+/-- outside that domain the public constructor `ArrValue::range_inclusive` yields an array whose
+    `len()` is not the number of its elements (`range_inclusive(5,3).len() = 2^64 - 1`, every
+    `get` is `None`); not reachable from Jsonnet, see `build_rangeDom` -/
+theorem range_inclusive_len_counterexample :
+    I32 5 ∧ I32 3 ∧ len (.range 5 3) = 2 ^ 64 - 1 ∧ ∀ i, get (.range 5 3) i = .oob := by
+  refine ⟨by unfold I32; omega, by unfold I32; omega, by decide, ?_⟩
+  intro i; simp only [get]
+  have : ¬ ((5 : Int) + (i : Int) ≤ 3) := by omega
+  simp only [this, ↓reduceIte]
+
+/-- every `RangeArray` inside any view that the modelled callers build (`builtin_range` with its
+    `to < from` guard, `builtin_make_array` with its `BoundedI32<0, i32::MAX>` argument and `== 0`
+    guard, `ArrValue::empty`, the empty results of `slice`) is inside the domain of
+    `rangeLen_exact` -/
+theorem build_rangeDom (t : T) (h : t.WF) : RangeDom (build t) := by
+  induction t with
+  | lit xs k =>
+    cases k with
+    | eager => trivial
+    | lazy => trivial
+    | expr => simp only [build]; split; exact rangeDom_empty; trivial
+  | range a b => exact rangeDom_mkRange a b ⟨h.1, h.2.1⟩ ⟨h.2.2.1, h.2.2.2⟩
+  | slice t s e st ih => exact rangeDom_mkSlice (ih h.1) s e st
+  | cat a b iha ihb => exact rangeDom_mkExt (iha h.1) (ihb h.2)
+  | rev t ih => exact ih h
+  | rep t n ih => exact ih h
+  | map t wi ih => exact ih h
+  | filter t ih => exact rangeDom_mkFilter _
+  | chars cps => trivial
+  | bytes bs => trivial
+  | objvals xs => trivial
+  | mkarr n triv =>
+    obtain ⟨v, hv, _⟩ := good_makeArray n h triv
+    simp only [build, hv]; exact rangeDom_makeArray n h triv v hv
+
+/-- the `BoundedI32<0, i32::MAX>` guard of `std.makeArray` -/
+theorem makeArray_guard (sz : Int) (triv : Option Int) :
+    (mkMakeArray sz triv).isSome = true ↔ 0 ≤ sz ∧ sz < 2 ^ 31 := by
+  unfold mkMakeArray
+  by_cases h : sz < 0 ∨ sz > 2 ^ 31 - 1
+  · simp only [h, ↓reduceIte, Option.isSome_none, Bool.false_eq_true, false_iff]; omega
+  · simp only [h, ↓reduceIte]
+    have : 0 ≤ sz ∧ sz < 2 ^ 31 := by omega
+    simp only [this, and_self, iff_true]
+    split
+    · rfl
+    · cases triv <;> rfl
+
+/-! ### The model's arms are the bodies translated from arr/spec.rs
+    (Generated/ArrKernels.lean is rewritten from the Rust text on every run) -/
+
+/-- SliceArray: `len`, `map_idx`, the guard and the delegated accessor of `get`/`get_lazy`/
+    `get_cheap`, `is_cheap` (for the slices `ArrValue::slice` constructs: `from ≤ to`, `step > 0`) -/
+theorem slice_kernel (inner : View) (f t st i : Nat) (hft : f ≤ t) (hst : 0 < st) :
+    SliceArray_len f t st (len inner) = some (len (.slice inner f t st)) ∧
+    runK (SliceArray_get f t st (len inner) i) (sel1 "inner" inner) = get (.slice inner f t st) i ∧
+    runK (SliceArray_get_lazy f t st (len inner) i) (sel1 "inner" inner)
+      = getLazy (.slice inner f t st) i ∧
+    runK (SliceArray_get_cheap f t st (len inner) i) (sel1 "inner" inner)
+      = getCheap (.slice inner f t st) i ∧
+    SliceArray_is_cheap (isCheap inner) = isCheap (.slice inner f t st) :=
+  ⟨slice_len_kernel inner f t st hft hst, (slice_acc_kernel inner f t st i hft hst).1,
+   (slice_acc_kernel inner f t st i hft hst).2.1, (slice_acc_kernel inner f t st i hft hst).2.2, rfl⟩
+
+/-- ReverseArray -/
+theorem rev_kernel (inner : View) (i : Nat) :
+    ReverseArray_len (len inner) = some (len (.rev inner)) ∧
+    runK (ReverseArray_get (len inner) i) (sel1 "0" inner) = get (.rev inner) i ∧
+    runK (ReverseArray_get_lazy (len inner) i) (sel1 "0" inner) = getLazy (.rev inner) i ∧
+    runK (ReverseArray_get_cheap (len inner) i) (sel1 "0" inner) = getCheap (.rev inner) i ∧
+    ReverseArray_is_cheap (isCheap inner) = isCheap (.rev inner) :=
+  ⟨rfl, (rev_acc_kernel inner i).1, (rev_acc_kernel inner i).2.1, (rev_acc_kernel inner i).2.2, rfl⟩
+
+/-- RepeatedArray (including the `% 0` panic site behind the bound check) -/
+theorem rep_kernel (data : View) (n total i : Nat) :
+    RepeatedArray_len n total (len data) = some (len (.rep data n total)) ∧
+    runK (RepeatedArray_get n total (len data) i) (sel1 "data" data) = get (.rep data n total) i ∧
+    runK (RepeatedArray_get_lazy n total (len data) i) (sel1 "data" data)
+      = getLazy (.rep data n total) i ∧
+    runK (RepeatedArray_get_cheap n total (len data) i) (sel1 "data" data)
+      = getCheap (.rep data n total) i ∧
+    RepeatedArray_is_cheap (isCheap data) = isCheap (.rep data n total) :=
+  ⟨rfl, (rep_acc_kernel data n total i).1, (rep_acc_kernel data n total i).2.1,
+   (rep_acc_kernel data n total i).2.2, rfl⟩
+
+/-- ExtendedArray -/
+theorem ext_kernel (a b : View) (split l i : Nat) :
+    ExtendedArray_len split l (len a) (len b) = some (len (.ext a b split l)) ∧
+    runK (ExtendedArray_get split l (len a) (len b) i) (selAB a b) = get (.ext a b split l) i ∧
+    runK (ExtendedArray_get_lazy split l (len a) (len b) i) (selAB a b)
+      = getLazy (.ext a b split l) i ∧
+    runK (ExtendedArray_get_cheap split l (len a) (len b) i) (selAB a b)
+      = getCheap (.ext a b split l) i ∧
+    ExtendedArray_is_cheap (isCheap a) (isCheap b) = isCheap (.ext a b split l) :=
+  ⟨rfl, (ext_acc_kernel a b split l i).1, (ext_acc_kernel a b split l i).2.1,
+   (ext_acc_kernel a b split l i).2.2, rfl⟩
+
+/-- RangeArray: wrapping length, iterator bounds, `new_exclusive`, `empty` -/
+theorem range_kernel (s e : Int) (hs : I32 s) (he : I32 e) :
+    RangeArray_len s e = len (.range s e) ∧
+    RangeArray_bounds s e = (s, e) ∧
+    newExclusive s e = (match RangeArray_new_exclusive s e with
+      | some p => View.range p.1 p.2
+      | none => emptyView) ∧
+    newExclusive RangeArray_empty_args.1 RangeArray_empty_args.2 = emptyView :=
+  ⟨rangeLen_kernel s e hs he, rfl, newExclusive_kernel s e he, by rfl⟩
+
+/-- `ArrValue::extended`: the branch structure (empty shortcuts, threshold comparison, which
+    iterator each copy reads through, eager vs lazy result) and `ExtendedArray::new`'s
+    `split`/`len`, as translated from arr/mod.rs / arr/spec.rs -/
+theorem extended_kernel (a b : View) :
+    mkExt a b = runPlan (ArrValue_extended (len a) (len b) (isCheap a) (isCheap b)) a b :=
+  extended_plan_kernel a b
+
+/-- `ArrValue::slice`: the `get_idx` closure (negative from the end, clamping, defaults), the
+    `index >= end` → empty guard and the SliceArray field assignment, as translated from
+    arr/mod.rs -/
+theorem slice_ctor (v : View) (s e : Option Int) (step : Option Nat) :
+    mkSlice v s e step = (match ArrValue_slice s e step (len v) with
+      | none => emptyView
+      | some (f, t, st) => View.slice v f t st) :=
+  slice_ctor_kernel v s e step
+
+/-- `is_cheap` of the leaf representations as the model's `vec` flag / constants use it -/
+theorem leaf_cheap_kernel :
+    (EagerArray_is_cheap, CharArray_is_cheap, BytesArray_is_cheap, RangeArray_is_cheap)
+      = (true, true, true, true) ∧
+    (LazyArray_is_cheap, ExprArray_is_cheap, PickObjectValues_is_cheap,
+      PickObjectKeyValues_is_cheap, MappedArray_is_cheap) = (false, false, false, false, false) :=
+  ⟨rfl, rfl⟩
+
 /-- non-vacuity: a slice of a reversed repeated literal, negative end, step 2 -/
 example :
-    let t : T := .slice (.rev (.rep (.lit [1, 2, 3]) 2)) (some 1) (some (-1)) (some 2)
-    t.WF ∧ denote t = [2, 3] ∧ get (build t) 2 = .oob := by
-  refine ⟨?_, ?_, ?_⟩
+    let t : T := .slice (.rev (.rep (.lit [1, 2, 3] .expr) 2)) (some 1) (some (-1)) (some 2)
+    t.WF ∧ denote t = [2, 3] ∧ get (build t) 2 = .oob ∧ getLazy (build t) 1 = .val 3 := by
+  refine ⟨?_, ?_, ?_, ?_⟩
   · simp [T.WF]
   · decide
   · decide
+  · decide
+
+/-- non-vacuity of `getCheap_eq`: a cheap concatenation (eager ++ range, copied through
+    `iter_cheap`) and a non-cheap one (copied through `iter_lazy`) -/
+example :
+    let t : T := .cat (.lit [7, 8] .eager) (.range 1 3)
+    let u : T := .cat (.lit [7, 8] .expr) (.range 1 3)
+    t.WF ∧ isCheap (build t) = true ∧ getCheap (build t) 2 = .val 1 ∧
+      u.WF ∧ isCheap (build u) = false ∧ getLazy (build u) 2 = .val 1 := by
+  refine ⟨?_, ?_, ?_, ?_, ?_, ?_⟩
+  · simp [T.WF]
+  · decide
+  · decide
+  · simp [T.WF]
+  · decide
+  · decide
+
+/-- non-vacuity of `index_expr_spec`: `[10,20,30][1]`, `[…][-1]`, `[…][3]`, `[…][1.5]`,
+    `[…][1 + 2^-52]` (tolerated), `makeArray` -/
+example :
+    let t : T := .lit [10, 20, 30] .expr
+    indexExpr (build t) 1 0 = .val 20 ∧ indexExpr (build t) (-1) 0 = .bounds ∧
+      indexExpr (build t) 3 0 = .bounds ∧ indexExpr (build t) 3 1 = .fractional ∧
+      indexExpr (build t) (2 ^ 52 + 1) 52 = .val 20 ∧
+      denote (.mkarr 3 none) = [1, 4, 7] := by
+  refine ⟨?_, ?_, ?_, ?_, ?_, ?_⟩ <;> decide
+
+/-- non-vacuity of the kernel theorems' hypotheses: the slice built for `[1,2,3,4,5][1:4:2]` -/
+example : build (.slice (.lit [1, 2, 3, 4, 5] .eager) (some 1) (some 4) (some 2))
+    = .slice (.vec [1, 2, 3, 4, 5] true) 1 4 2 ∧ (1 : Nat) ≤ 4 ∧ 0 < 2 := by
+  refine ⟨by rfl, by omega, by omega⟩
 
 end JrsVerif.Arr
